@@ -437,14 +437,25 @@ def get_strategy_base():
                     self._decl['sl'] = [(abs(float(self.position.qty)), float(self.price))]
                     self._decl_at['sl'] = self._c.seq
                 self._decl_seq += 1
-            elif u < pr['p_liquidate'] + pr['p_modify']:
+            elif u < pr['p_liquidate'] + pr.get('p_withdraw', 0.0):
+                # withdraw one kind of exit altogether (an empty declaration)
+                kind = 'sl' if self._uu('upd', 'wd', 0.0) < 0.5 else 'tp'
+                if self._decl[kind]:
+                    if kind == 'sl':
+                        self.stop_loss = []
+                    else:
+                        self.take_profit = []
+                    self._decl[kind] = []
+                    self._decl_at[kind] = self._c.seq
+                    self._c.count('exit_withdrawn')
+            elif u < pr['p_liquidate'] + pr.get('p_withdraw', 0.0) + pr['p_modify']:
                 w = int(self._uu('upd', 'which', 0.0) * 3)
                 which = (('sl',), ('tp',), ('sl', 'tp'))[w % 3]
                 self._declare_exits('upd', which)
                 self._c.count('exit_modified')
-            elif u < pr['p_liquidate'] + pr['p_modify'] + pr['p_modify_entry'] and self._plan:
+            elif u < pr['p_liquidate'] + pr.get('p_withdraw', 0.0) + pr['p_modify'] + pr['p_modify_entry'] and self._plan:
                 self._modify_entry()
-            elif u < pr['p_liquidate'] + pr['p_modify'] + pr['p_modify_entry'] + pr['p_broker']:
+            elif u < pr['p_liquidate'] + pr.get('p_withdraw', 0.0) + pr['p_modify'] + pr['p_modify_entry'] + pr['p_broker']:
                 self._broker_direct()
             self._observe('update_position')
 
@@ -594,6 +605,7 @@ def gen_program(st, exchange_type, profile=None):
         'hp_decl': None,
         'dna': None,
         'raise_at': None,
+        'p_withdraw': st.choice([0.0, 0.0, 0.02], 'p_withdraw'),
         'ohlc_entries': st.chance(0.3, 'ohlc'),
         'data_gate': st.chance(0.3, 'dgate'),
     }
